@@ -262,7 +262,18 @@ def fa_gen(rng, maxops):
         else:
             ops.append(["enforce", rng.choice(FA_SUBS + FA_ROLES), rng.choice(FA_OBJS + FA_GROUPS), rng.choice(FA_ACTS)])
     ops += [["save_policy"], ["load_policy"]]
-    return dict(kind="file-adapter-history", stratum="bundled-file-adapters", initial_text="\n".join(lines) + ("\n" if lines else ""), ops=ops)
+    # the store as a hand-edited file may look: comment and blank lines, CRLF / bare CR / no line ends at all, padded fields,
+    # a tab after the comma, a form feed - both adapters must read the same rules from the same bytes
+    if lines and rng.random() < 0.5:
+        for _ in range(rng.randint(1, 3)):
+            k = rng.randrange(len(lines) + 1)
+            lines.insert(k, rng.choice(["# comment", "", "  ", "#p, zed, data9, read", "# note\r", "\x0c"]))
+        sep = rng.choice(["\n", "\n", "\r\n", "\r", "\n\n"])
+        lines = [l.replace(", ", rng.choice([", ", ",", ",\t", " , "])) if rng.random() < 0.3 and not l.startswith("#") else l for l in lines]
+        text = sep.join(lines) + rng.choice(["", sep])
+    else:
+        text = "\n".join(lines) + ("\n" if lines else "")
+    return dict(kind="file-adapter-history", stratum="bundled-file-adapters", initial_text=text, ops=ops)
 
 
 def fa_run(case, is_async, path):
